@@ -269,3 +269,132 @@ Proof.
     unfold field_cells. cbn [fbody]. rewrite cells_of_enc. reflexivity.
 Qed.
 End AggOne.
+
+(* ================================================================== D. name bookkeeping *)
+Lemma fresh_names_app : forall a b ddf, fresh_names (a ++ b) ddf = true ->
+  fresh_names a ddf = true /\ fresh_names b (ddf ++ a) = true.
+Proof.
+  induction a as [|[n f] a IH]; intros b ddf H.
+  - cbn [app] in *. rewrite app_nil_r. split; [reflexivity|exact H].
+  - cbn [app fresh_names] in H. apply andb_prop in H. destruct H as [H H3]. apply andb_prop in H. destruct H as [H1 H2].
+    apply negb_true_iff in H2. rewrite has_name_app in H2. apply orb_false_iff in H2. destruct H2 as [H2a H2b].
+    assert (H3' : fresh_names (a ++ b) (ddf ++ [(n, f)]) = true).
+    { apply fresh_names_snoc; [exact H3|]. cbn [fst]. rewrite has_name_app, H2a, H2b. reflexivity. }
+    destruct (IH b _ H3') as [_ Hb]. destruct (IH b _ H3) as [Ha _].
+    split.
+    + cbn [fresh_names]. rewrite H1, H2a, Ha. reflexivity.
+    + rewrite <- app_assoc in Hb. exact Hb.
+Qed.
+
+Lemma has_name_lookup n : forall d, has_name n d = true -> exists f, lookup n d = Some f.
+Proof.
+  induction d as [|[m g] t IH]; cbn [has_name lookup]; [discriminate|].
+  destruct (m =? n); [intros _; eexists; reflexivity|exact IH].
+Qed.
+
+Lemma readers_of_ok cols : forall ts, all_in ts cols = true -> exists r, readers_of ts cols = Ok r.
+Proof.
+  induction ts as [|t ts IH]; intros H; [exists []; reflexivity|].
+  cbn [all_in] in H. apply andb_prop in H. destruct H as [Ht Hall].
+  destruct (has_name_lookup t cols Ht) as [f Hf]. destruct (IH Hall) as [r Hr].
+  exists (f :: r). cbn [readers_of]. rewrite Hf, Hr. reflexivity.
+Qed.
+
+Section Steps.
+Variables (cols:frame) (by_:list Z) (hint:bool) (kr:list (list cell)).
+Hypothesis Hpre : groupby_pre cols by_ hint = true.
+Hypothesis Hkrows : key_rows cols by_ = Some kr.
+Let g := gb_of by_ hint kr.
+
+Lemma target_facts t : has_name t cols = true ->
+  exists f, lookup t cols = Some f /\ wf_body (fbody f) /\ field_len f = nrows cols.
+Proof.
+  intros Ht. destruct (has_name_lookup t cols Ht) as [f Hf]. exists f. split; [exact Hf|].
+  destruct (key_rows_kcs cols by_ kr Hkrows) as [kcs [Hkc Hkr]].
+  destruct (pre_unpack cols by_ hint kcs Hpre Hkc) as [rd (Hok & _)].
+  destruct (lookup_in t cols f Hf) as [_ [k' Hin]].
+  exact (frame_ok_in (nrows cols) cols (k', f) Hok Hin).
+Qed.
+
+(* the loop `for field in target_fields` of max / min / first / last, any number of targets of any class *)
+Lemma agg_targets_correct a : forall ts ddf,
+  all_in ts cols = true ->
+  fresh_names (spec_agg_cols a cols kr ts) ddf = true ->
+  agg_targets a cols g ts ddf = Ok (ddf ++ spec_agg_cols a cols kr ts).
+Proof.
+  destruct (key_rows_kcs cols by_ kr Hkrows) as [kcs [Hkc Hkr]].
+  induction ts as [|t ts IH]; intros ddf Hall Hf.
+  - cbn. rewrite app_nil_r. reflexivity.
+  - cbn [all_in] in Hall. apply andb_prop in Hall. destruct Hall as [Ht Hall].
+    destruct (target_facts t Ht) as [f (Hl & Hwf & Hlen)].
+    unfold spec_agg_cols in *. cbn [map] in *. rewrite Hl in *.
+    cbn [fresh_names] in Hf. apply andb_prop in Hf. destruct Hf as [Hf H3]. apply andb_prop in Hf. destruct Hf as [H1 H2].
+    apply negb_true_iff in H1. apply negb_true_iff in H2.
+    rewrite (agg_targets_unfold_pf a cols g t ts ddf f Hl H1).
+    unfold g at 1. rewrite (agg_one_any cols by_ hint kr kcs Hpre Hkc Hkr a f Hwf Hlen). cbn [bind].
+    fold g. rewrite IH.
+    + rewrite <- app_assoc. reflexivity.
+    + exact Hall.
+    + apply fresh_names_snoc; [exact H3|]. cbn [fst]. exact H2.
+Qed.
+
+Lemma validate_target_ok ts : targets_ok cols by_ ts = true ->
+  validate_groupby_target ts by_ cols = Ok ts /\ all_in ts cols = true.
+Proof.
+  unfold targets_ok. intros H. apply andb_prop in H. destruct H as [H H4]. apply andb_prop in H. destruct H as [H H3].
+  apply andb_prop in H. destruct H as [H1 H2]. apply negb_true_iff in H4.
+  split; [|exact H2]. unfold validate_groupby_target. rewrite H2, H4. cbn [negb].
+  destruct ts; [discriminate|reflexivity].
+Qed.
+
+Theorem gb_agg_correct_pf a ts ddf wk : targets_ok cols by_ ts = true ->
+  let new := (if wk:bool then spec_key_cols cols by_ (groups kr) else []) ++ spec_agg_cols a cols kr ts in
+  fresh_names new ddf = true ->
+  gb_agg a cols g ts ddf wk = Ok (ddf ++ new).
+Proof.
+  intros Hts new Hfresh. subst new. destruct (fresh_names_app _ _ _ Hfresh) as [Hfk Hfa].
+  destruct (validate_target_ok ts Hts) as [Hv Hall].
+  unfold gb_agg. unfold g at 1. rewrite g_by_eq. rewrite Hv. cbn [bind].
+  unfold g at 1. rewrite (maybe_write_keys_correct cols by_ hint kr ddf wk Hpre Hkrows Hfk). cbn [bind].
+  destruct (readers_of_ok cols ts Hall) as [r ->]. cbn [bind].
+  rewrite agg_targets_correct by assumption. rewrite <- app_assoc. reflexivity.
+Qed.
+
+(* one call on the group-by object appends exactly the columns of the specification *)
+Lemma run_gstep_correct s new ddf :
+  spec_step_cols cols by_ kr s = Some new -> fresh_names new ddf = true ->
+  run_gstep cols g ddf s = Ok (ddf ++ new).
+Proof.
+  destruct s as [wk|wk|a ts wk]; cbn [spec_step_cols run_gstep].
+  - intros E Hf. inversion E; subst new; clear E. destruct (fresh_names_app _ _ _ Hf) as [Hk Hc].
+    unfold g. apply (gb_count_correct_pf cols by_ hint kr ddf wk Hpre Hkrows Hk).
+    unfold spec_count_col in Hc. cbn [fresh_names] in Hc. apply andb_prop in Hc. destruct Hc as [Hc _].
+    apply andb_prop in Hc. destruct Hc as [Hc _]. apply negb_true_iff in Hc. exact Hc.
+  - intros E Hf. inversion E; subst new; clear E. unfold gb_distinct, g.
+    exact (maybe_write_keys_correct cols by_ hint kr ddf wk Hpre Hkrows Hf).
+  - destruct (targets_ok cols by_ ts) eqn:Et; [|discriminate]. intros E Hf. inversion E; subst new; clear E.
+    exact (gb_agg_correct_pf a ts ddf wk Et Hf).
+Qed.
+
+(* several calls into one destination *)
+Lemma run_gsteps_correct : forall ss ddf r,
+  spec_steps cols by_ kr ddf ss = Some r -> run_gsteps cols g ddf ss = Ok r.
+Proof.
+  induction ss as [|s ss IH]; intros ddf r H; cbn [spec_steps run_gsteps] in *.
+  - inversion H. reflexivity.
+  - destruct (spec_step_cols cols by_ kr s) as [new|] eqn:Es; [|discriminate].
+    destruct (fresh_names new ddf) eqn:Ef; [|discriminate].
+    rewrite (run_gstep_correct s new ddf Es Ef). cbn [bind]. apply IH. exact H.
+Qed.
+End Steps.
+
+(* the frame-level theorem: whatever the specification prescribes, the model of
+   df.groupby(by, hint).step1(ddf); .step2(ddf); ... produces *)
+Theorem df_groupby_steps_correct cols by_ hint ddf ss r :
+  spec_groupby_steps cols by_ hint ddf ss = Some r -> df_groupby_steps cols by_ hint ddf ss = Ok r.
+Proof.
+  unfold spec_groupby_steps. destruct (groupby_pre cols by_ hint) eqn:Hpre; [|discriminate].
+  destruct (key_rows cols by_) as [kr|] eqn:Hkr; [|discriminate]. intros H.
+  unfold df_groupby_steps. rewrite (df_groupby_correct cols by_ hint kr Hpre Hkr). cbn [bind].
+  exact (run_gsteps_correct cols by_ hint kr Hpre Hkr ss ddf r H).
+Qed.
